@@ -196,7 +196,7 @@ PROPS["C18"] = _c18()
 # ---------------------------------------------------------------------------------------------
 def _c19():
     hs = [H("c19_schedule_k1", tier="quick"), H("c19_schedule_k3", tier="quick"), H("c19_schedule_k6", tier="quick"),
-          H("c19_schedule_k12", tier="quick"), H("c19_generic_k3", tier="quick"), H("c19_generic_k6", tier="thorough", timeout=3000, mem_gb=20)]
+          H("c19_schedule_k12", tier="quick"), H("c19_long_outage_defaults_n70", tier="quick"), H("c19_long_outage_cap1s_limit40_n45", tier="quick"), H("c19_long_outage_nocap_n66", tier="quick"), H("c19_generic_k3", tier="quick"), H("c19_generic_k6", tier="thorough", timeout=3000, mem_gb=20)]
     for h in hs:
         h.profiles = ("dev", "rel")
         h.note = "all (max_retry_interval: u64 ms, max_retry_count: u32): delays == min(200 ms * 2^k, max); None exactly after max_retry_count; reset restores the start; no arithmetic panic"
